@@ -1568,6 +1568,8 @@ def expand_single_def_vars(fn, o, depth=3):
         return o
     if o.k == "var" and o.a.get("local") is not None:
         ds = [d for d in local_defs(fn).get(o.a["local"], []) if d[1] != "partial"]
+        if o.a.get("is_arg") or 1 <= o.a["local"] <= fn.arg_count:
+            return o            # a reassigned parameter: its first value is the caller's
         if len(ds) == 1:
             return expand_single_def_vars(fn, _origin_of_def(fn, ds[0], 10, {o.a["local"]}), depth - 1)
         if 1 < len(ds) <= 8 and fn.local_name(o.a["local"]) is None and not o.a.get("is_arg") and o.a["local"] not in mut_borrowed(fn):
